@@ -205,6 +205,7 @@ def r5(ctx):
         ctx.check(nm, len(us) == 1 and bb.guard(us[0]) == frozenset([frozenset()]),
                   "every point of the curve is fed to the drawdown generator (unconditionally - a skipped point can hide a trough or a peak)",
                   got=[render_guard(bb.guard(x))[:200] for x in us], key="every-point")
+    common.summary_forwarders(ctx)
     pu = [bi for bi, t, tm in b.real_calls() if mir.short(tm[1]) == "PnLReturns::update"]
     du = [bi for bi, t, tm in b.real_calls() if mir.short(tm[1]) == "DrawdownGenerator::update"]
     ctx.check("TearSheetGenerator::update_from_position", len(pu) == 1 and len(du) == 1 and b.dominates(pu[0], du[0]) and pu[0] != du[0],
